@@ -72,6 +72,11 @@ type Scenario struct {
 	// the second track is opened (request started, body not yet sent) before the master's second segment starts
 	// the channel and is sent afterwards (sequential reference: sent completely before the master's second segment)
 	OpenStart bool `json:"openstart,omitempty"`
+	// Overlap: after init and segment 1 of all tracks, for every track concurrently: segment 2 is sent half-way,
+	// then segment 3 (and, ReInit, the init segment again) completely on another request, then the rest of
+	// segment 2 (sequential reference: segment 3, the init, segment 2, one after the other)
+	Overlap bool `json:"overlap,omitempty"`
+	ReInit  bool `json:"reinit,omitempty"`
 }
 
 type Outcome struct {
@@ -510,6 +515,49 @@ func runOnce(si, round int, sc Scenario) Outcome {
 		}
 		rcv.Sync(chn)
 	}
+	if sc.Overlap {
+		chn := sc.Channels[0]
+		for _, tr := range sc.Tracks {
+			count(put(rcv.Router, fmt.Sprintf("/upload/%s/%s/init%s", chn, tr.Name, tr.Ext), inits[tr.Name], sc.Auth))
+			count(put(rcv.Router, fmt.Sprintf("/upload/%s/%s/1%s", chn, tr.Name, tr.Ext), segs[tr.Name], sc.Auth))
+		}
+		rcv.Sync(chn)
+		one := func(tr Track) {
+			s2, s3 := segment(tr, 2), segment(tr, 3)
+			if sc.Sequential {
+				count(put(rcv.Router, fmt.Sprintf("/upload/%s/%s/3%s", chn, tr.Name, tr.Ext), s3, sc.Auth))
+				if sc.ReInit {
+					count(put(rcv.Router, fmt.Sprintf("/upload/%s/%s/init%s", chn, tr.Name, tr.Ext), inits[tr.Name], sc.Auth))
+				}
+				count(put(rcv.Router, fmt.Sprintf("/upload/%s/%s/2%s", chn, tr.Name, tr.Ext), s2, sc.Auth))
+				return
+			}
+			g := newGate(1 << 30) // opened by hand
+			done := make(chan struct{})
+			go func() {
+				defer close(done)
+				count(putGated(rcv.Router, fmt.Sprintf("/upload/%s/%s/2%s", chn, tr.Name, tr.Ext), s2, sc.Auth, g))
+			}()
+			time.Sleep(10 * time.Millisecond) // the first half of segment 2 has been taken in
+			count(put(rcv.Router, fmt.Sprintf("/upload/%s/%s/3%s", chn, tr.Name, tr.Ext), s3, sc.Auth))
+			if sc.ReInit {
+				count(put(rcv.Router, fmt.Sprintf("/upload/%s/%s/init%s", chn, tr.Name, tr.Ext), inits[tr.Name], sc.Auth))
+			}
+			g.open()
+			<-done
+		}
+		var ow sync.WaitGroup
+		for _, tr := range sc.Tracks {
+			if sc.Sequential {
+				one(tr)
+				continue
+			}
+			ow.Add(1)
+			go func(tr Track) { defer ow.Done(); one(tr) }(tr)
+		}
+		ow.Wait()
+		rcv.Sync(chn)
+	}
 	if sc.Backlog {
 		chn := sc.Channels[0]
 		seg := func(tr Track, nr uint32) []byte { return segment(tr, nr) }
@@ -568,7 +616,7 @@ func runOnce(si, round int, sc Scenario) Outcome {
 		mu.Unlock()
 	}
 	for _, chn := range sc.Channels {
-		if sc.Backlog || sc.Feed > 0 || sc.Restart || sc.StartReg || sc.OpenStart {
+		if sc.Backlog || sc.Feed > 0 || sc.Restart || sc.StartReg || sc.OpenStart || sc.Overlap {
 			break
 		}
 		for _, tr := range sc.Tracks {
